@@ -174,9 +174,34 @@ fn build(s: &Spec, now: u64) -> (Case, Option<bool>) {
         case.cfg.client_addr = s.text.split_once('|').unwrap().0.parse().unwrap();
     }
     let asked = s.intent == 3 && s.secret_hex.is_some();
-    let (payload, verdict) = if asked { cookie(s, now) } else { (None, Some(false)) };
+    let (payload, verdict) = if s.kind == "miskeyed" { (None, Some(false)) } else if asked { cookie(s, now) } else { (None, Some(false)) };
     let login = Login { intent: s.intent, auth_cookie: asked.then_some(payload), ..Default::default() };
     case.script = login.steps();
+    if s.kind == "miskeyed" {
+        // the client answers Cookie Requests under keys of its own choosing: a genuine, fresh, same-address
+        // authentication cookie comes back in the slot named by `text` (answer to the session Cookie Request), always keyed `passage:authentication`; a slot not named is answered as asked, empty
+        let sec = secret(s).unwrap_or_default();
+        let fresh = sign(&auth_cookie_body(now - 5, CLIENT, CK_NAME, CK_UUID, Some("t-old"), &ck_props()), &sec);
+        let mut slot = 0;
+        for stp in case.script.iter_mut() {
+            if let Act::Cookie { key, payload } = &mut stp.act {
+                let here = match s.text.as_str() {
+                    "session-slot" => slot == 0,
+                    "session-slot-session-key" => slot == 0,
+                    _ => false,
+                };
+                if here {
+                    if s.text != "session-slot-session-key" {
+                        *key = "passage:authentication".into();
+                    }
+                    *payload = Some(fresh.clone());
+                } else {
+                    *payload = None;
+                }
+                slot += 1;
+            }
+        }
+    }
     if s.kind == "age-stall" || (s.kind == "issued" && s.n > 0) {
         let at = case.script.iter().position(|st| matches!(&st.act, Act::Cookie { key, .. } if key == "passage:authentication")).unwrap_or_else(|| common::machinery("C02: no authentication cookie step"));
         case.script.insert(at, st(When::Idle, Act::RealSleep(s.n as u64)));
@@ -199,7 +224,8 @@ fn judge(s: &Spec, verdict: Option<bool>, obs: &Obs) -> Vec<(String, String)> {
     let success = obs.packets.iter().find_map(|(_, p)| if let Pkt::LoginSuccess { uuid, name, .. } = p { Some((name.clone(), *uuid)) } else { None });
     let asked_cookie = obs.packets.iter().filter(|(_, p)| matches!(p, Pkt::LoginCookieRequest { key } if key == "passage:authentication")).count();
     let should_ask = s.intent == 3 && s.secret_hex.is_some();
-    if (asked_cookie == 1) != should_ask || asked_cookie > 1 {
+    // (judged on connections that got as far as the Encryption Request: one that ended before had no occasion to ask)
+    if flag.is_some() && ((asked_cookie == 1) != should_ask || asked_cookie > 1) {
         bad("auth-cookie-request".into(), format!("authentication cookie requested {asked_cookie} times; intent {} secret configured {}", s.intent, s.secret_hex.is_some()));
     }
     let class = if s.kind == "body" { format!("{}:{}", s.kind, s.text) } else if s.kind == "age" { format!("age:{}", if s.n == s.expiry as i64 { "at-expiry" } else if s.n < s.expiry as i64 { "younger" } else { "older" }) } else { s.kind.clone() };
@@ -221,6 +247,8 @@ fn judge(s: &Spec, verdict: Option<bool>, obs: &Obs) -> Vec<(String, String)> {
         Some(false) => {
             if flag == Some(false) || (success.is_some() && auth_calls == 0) {
                 bad(format!("authentication-skipped:{class}"), format!("flag {flag:?}, authentication calls {auth_calls}, Login Success {success:?}"));
+            } else if s.kind == "miskeyed" && obs.result.is_err() && success.is_none() && !obs.has("Transfer") && !obs.has("StoreCookie") {
+                // (a client that answers under the wrong key may simply be dropped)
             } else if !authenticated_shape {
                 bad(format!("not-told-to-authenticate:{class}"), format!("flag {flag:?}, authentication calls {auth_calls}, Login Success {success:?}, result {:?}", obs.result));
             }
@@ -260,6 +288,11 @@ fn specs(cookie_len: usize, thorough: bool) -> Vec<Spec> {
             }
         }
     }
+    // Cookie Responses under a key the server did not ask for (Login intent has no authentication cookie slot)
+    for (intent, text) in [(2, "session-slot"), (2, "session-slot-session-key"), (3, "session-slot"), (3, "session-slot-session-key")] {
+        v.push(sp(intent, Some(k), "miskeyed", 0, 21_600, text));
+    }
+    v.push(sp(2, None, "miskeyed", 0, 21_600, "session-slot"));
     // transfer + secret
     for kind in ["absent", "empty", "valid", "other-secret"] {
         v.push(sp(3, Some(k), kind, 0, 21_600, ""));
